@@ -527,6 +527,42 @@ func c09Mutations(valid []string) []string {
 	return out
 }
 
+// c09Joins: ordered pairs of the first six valid arguments joined by a blank, by nothing,
+// by '|' and by ',', and all of them joined by a blank, in both directions.
+func c09Joins(valid, have []string) []string {
+	seen := map[string]bool{}
+	for _, h := range have {
+		seen[h] = true
+	}
+	var out []string
+	add := func(s string) {
+		if !seen[s] {
+			seen[s] = true
+			out = append(out, s)
+		}
+	}
+	v := valid
+	if len(v) > 6 {
+		v = v[:6]
+	}
+	for i := range v {
+		for j := range v {
+			if i != j {
+				for _, sep := range []string{" ", "", "|", ","} {
+					add(v[i] + sep + v[j])
+				}
+			}
+		}
+	}
+	add(strings.Join(v, " "))
+	rev := make([]string, len(v))
+	for i := range v {
+		rev[len(v)-1-i] = v[i]
+	}
+	add(strings.Join(rev, " "))
+	return out
+}
+
 type c09ArgCase struct {
 	kind, kw, arg string
 }
@@ -535,6 +571,12 @@ func c09ArgCases() []c09ArgCase {
 	var out []c09ArgCase
 	for _, k := range c09ArgKinds {
 		muts := c09Mutations(k.valid)
+		switch k.name {
+		case "boolean", "status", "ordered-by", "deviate", "max-elements", "non-negative-integer", "integer", "prefix", "identifier", "identifier-ref", "date":
+			// two or more valid arguments in one string: a membership test written as a
+			// search in the list of the valid ones finds them
+			muts = append(muts, c09Joins(k.valid, muts)...)
+		}
 		if k.name == "pattern" {
 			// (the mutations leave out every string with a backslash in it)
 			muts = append(muts, "a\\", "[0-9]+\\", "\\", "a\\\\\\", "*a", "+", "?abc", "(*a)", "a|*b", "a|+", "(?)", "\\d+\\")
